@@ -112,7 +112,7 @@ class G:
             e["delay"] = delay_spec(rng, self.lat)
             e["mode"] = rng.choice(["FIFO", "FIFO", "FIFO", "LIFO"])
         elif t == "fleet":
-            e["delay"] = rng.choice(pos + [1, 2])
+            e["delay"] = rng.choice(pos + [1, 2] + ([0] if rng.random() < 0.25 else []))      # zero waiting delay is in the domain
             e["transit"] = rng.choice(self.lat)
         elif t == "cconv":
             e["speed"] = rng.choice([1, 1, 2, 0.5])
@@ -228,6 +228,10 @@ def build_topology(g, prop):
     elif tmpl == "combiner":
         n_ing = rng.choice([1, 1, 2, 3])
         recipe = [1] + [rng.choice([1, 1, 2, 3]) for _ in range(n_ing)]
+        if n_ing >= 2 and rng.random() < 0.3:
+            recipe[rng.randrange(1, n_ing + 1)] = 0          # legal: nothing is taken from that ingredient edge
+            if not any(recipe[1:]):
+                recipe[1] = 1
         c = g.combiner(recipe)
         n_p = rng.choice([2, 3, 5, 8])
         ps = g.source(flow="pallet", n_items=n_p)
@@ -289,12 +293,13 @@ def make_case(prop, rng, tier, opts=None):
     if prop == "C15" and rng.random() < 0.12:
         # an out-of-range answer from a user selector must surface as an error, never be wrapped or ignored
         cands = [n for n in g.nodes if n["type"] in ("machine", "source", "splitter", "combiner")]
-        n = rng.choice(cands)
-        side = rng.choice(["out", "in"]) if n["type"] in ("machine", "splitter") else "out"
-        cnt = sum(1 for e in g.edges if (e["src"] if side == "out" else e["dst"]) == n["id"])
-        good = [rng.randrange(cnt) for _ in range(rng.randint(0, 3))]
-        n[side + "_sel"] = {"form": rng.choice(["callable", "generator"]), "vals": good + [rng.choice([cnt, cnt + 1, -1, -2])]}
-        bad_index = {"node": n["id"], "side": side, "position": len(good)}
+        if cands:
+            n = rng.choice(cands)
+            side = rng.choice(["out", "in"]) if n["type"] in ("machine", "splitter") else "out"
+            cnt = sum(1 for e in g.edges if (e["src"] if side == "out" else e["dst"]) == n["id"])
+            good = [rng.randrange(cnt) for _ in range(rng.randint(0, 3))]
+            n[side + "_sel"] = {"form": rng.choice(["callable", "generator"]), "vals": good + [rng.choice([cnt, cnt + 1, -1, -2])]}
+            bad_index = {"node": n["id"], "side": side, "position": len(good)}
     invalid = None
     if opts.get("invalid") and rng.random() < opts["invalid"]:
         invalid = inject_invalid(g, rng)
